@@ -37,7 +37,10 @@ def c13_quantity(src, ns):
     except Exception as e:
         return "unparsable-quantity: str(%s) = %r does not parse (%s)" % (src, text, type(e).__name__)
     try:
-        ok = (p == q) or abs(float(p.in_unit(q.unit).magnitude) / float(q.magnitude) - 1) < 1e-9
+        if p.unit is q.unit and isinstance(q.magnitude, int):
+            ok = isinstance(p.magnitude, int) and p.magnitude == q.magnitude   # an integer is written out digit by digit: it comes back exactly
+        else:
+            ok = (p == q) or abs(float(p.in_unit(q.unit).magnitude) / float(q.magnitude) - 1) < 1e-9
     except Exception:
         ok = False
     return None if ok else "different-quantity: str(%s) = %r parses to %r" % (src, text, p)
@@ -120,7 +123,7 @@ def run(tier, seed):
         msg = c13_unit(src, ns)
         if msg:
             note(msg, src, "c13_unit")
-        qsrc = "(%s * %s)" % (rng.choice(["5", "2.5", "-3", "1e3", "0"]), src)
+        qsrc = "(%s * %s)" % (rng.choice(["5", "2.5", "-3", "1e3", "0", "9007199254740993", "12345678901234567891", "-(10**17+1)", "3**40", "1e-7", "123456.789e3"]), src)
         msg = c13_quantity(qsrc, ns)
         if msg:
             note(msg, qsrc, "c13_quantity")
@@ -154,6 +157,12 @@ def run(tier, seed):
                  "%s^%d/%s^%d" % (a.symbol, ea, b.symbol, eb), " %s^%d  %s^-%d " % (a.symbol, ea, b.symbol, eb), "%s^%d / %s%s" % (a.symbol, ea, b.symbol, sup[eb]),
                  # any whitespace: newline, tab, carriage return, form feed
                  "%s^%d\n%s^-%d\n" % (a.symbol, ea, b.symbol, eb), "\t%s^%d\r\n/\f%s^%d" % (a.symbol, ea, b.symbol, eb)]
+        if rng.random() < 0.3:
+            # a zeroth power is a factor of one, however it is spelt
+            c = ns[rng.choice(units)]
+            if c.symbol and " " not in c.symbol:
+                z = rng.choice(["%s^0", "%s⁰", "%s^-0", "%s^+0"]) % c.symbol
+                texts += ["%s^%d*%s*%s^-%d" % (a.symbol, ea, z, b.symbol, eb), "%s⋅%s^%d/%s^%d" % (z, a.symbol, ea, b.symbol, eb)]
         evals += 1
         msg = c13_spellings(texts, ns)
         if msg:
